@@ -181,7 +181,8 @@ impl Run {
             "counter": s.counter, "avail": s.avail, "handles": s.handles, "next": s.next,
             "paused": s.paused, "running": !s.exited && s.panicked.is_empty(),
             "wq": wq, "alive": s.alive,
-            "lstTimer": s.sock_backoff.iter().map(|b| if *b { 2 } else { 0 }).collect::<Vec<_>>(),
+            "lstTimer": s.sock_backoff.iter().zip(s.sock_expired.iter())
+                .map(|(b, e)| if *e { 1 } else if *b { 2 } else { 0 }).collect::<Vec<_>>(),
             "timeoutSet": s.timeout_ms >= 0,
             "pathOk": s.uds_path,
             "errq": self.injected,
@@ -307,6 +308,15 @@ fn run_schedule(run_id: usize, sch: &Value, dir: &str, trace: &mut Trace) -> Val
                         stable = 0;
                     }
                     last = sig;
+                }
+                // a back-off deadline that has passed but is still set: give the loop the chance to see its own poll
+                // time out (an iteration without the bare wake; only possible while it has a poll timeout)
+                if prev.sock_expired.iter().any(|x| *x) && prev.timeout_ms >= 0 && prev.panicked.is_empty() && !prev.exited {
+                    run.sim.iterate_let_poll_time_out();
+                    run.sim.iterate(vec![]);
+                    let s = run.sim.snapshot();
+                    absorb(&mut run, &s);
+                    prev = s;
                 }
                 q = stable >= 2;
                 pe = false;
